@@ -624,6 +624,10 @@ func runC02(c *Ctx) {
 
 	ruleRebuild(c, p, "C02.rebuild")
 	ruleCompressDst(c, p, "C02.dst")
+	ruleForwardAll(c, p, "C02.forward-all")
+	if roles := resolveDo(c, p); roles != nil {
+		ruleDiscard(c, p, roles, "C02")
+	}
 	{
 		c.R.Rule("C02.messages", "E2 containment, exactness and gate provenance (as C17.shape / C17.gates) for every protocol message at every revision sample: what the client writes for a Query packet (client info, settings, parameters, data header) is what a decoder of that revision consumes, no byte more")
 		pairs := messagePairs(p)
